@@ -242,20 +242,59 @@ def split_output(text):
     return out
 
 
+def run_watched(cmd, outfile, timeout, envx=None):
+    """Run vdrive; kill it when the whole shard exceeds `timeout` or when its output file has not grown for
+    VERIF_STALL_S seconds (default 120): vdrive flushes at the start and the end of every case, so a silent output means
+    one case is hanging (a spinning or dead-locked implementation) - reported as HANG for that case."""
+    e = dict(os.environ)
+    if envx:
+        e.update(envx)
+    stall = float(os.environ.get('VERIF_STALL_S', '120'))
+    p = subprocess.Popen(cmd, env=e, stdout=subprocess.PIPE, stderr=subprocess.PIPE, text=True)
+    t0 = time.time()
+    last_size, last_change = -1, t0
+    err = ''
+    while True:
+        try:
+            o, err = p.communicate(timeout=1.0)
+            return p.returncode, o, err
+        except subprocess.TimeoutExpired:
+            pass
+        now = time.time()
+        try:
+            sz = os.path.getsize(outfile)
+        except OSError:
+            sz = -1
+        if sz != last_size:
+            last_size, last_change = sz, now
+        if now - t0 > timeout or now - last_change > stall:
+            p.kill()
+            try:
+                p.communicate(timeout=10)
+            except Exception:
+                pass
+            return -9, '', 'TIMEOUT'
+
+
 def run_impl_shard(args):
     header, cases, wd, idx, timeout, envx = args
     res = {}
     todo = list(cases)
     rnd = 0
+    hangs = 0
     while todo:
+        if hangs >= int(os.environ.get('VERIF_MAX_HANGS', '2')):
+            # the implementation keeps hanging: stop feeding it cases (bounded run time); the cases not run are marked
+            for c in todo:
+                res[c['id']] = ['NOT-RUN hang-budget-exhausted']
+            break
         sp = '%s/impl_%d_%d.script' % (wd, idx, rnd)
         op = '%s/impl_%d_%d.out' % (wd, idx, rnd)
         sd = '%s/scratch_%d_%d' % (wd, idx, rnd)
         write_script(sp, header, todo)
-        try:
-            rc, o, e = sh([VDRIVE, sd, sp, op], timeout=timeout, env=envx)
-        except subprocess.TimeoutExpired:
-            rc, o, e = -9, '', 'TIMEOUT'
+        rc, o, e = run_watched([VDRIVE, sd, sp, op], op, timeout, envx)
+        if e == 'TIMEOUT':
+            hangs += 1
         shutil.rmtree(sd, ignore_errors=True)
         txt = open(op).read() if os.path.exists(op) else ''
         got = split_output(txt)
